@@ -222,9 +222,10 @@ func (m *Manager) Stop() error {
 		exp := wrap.expiry.Load()
 		if exp != nil {
 			e := exp.(*expiry)
-			if !e.cancel() {
+			if e.cancel() {
+				// the timer is stopped before it has fired: what it was guarding (remaining session
+				// expiry, delayed will) is handed to persistence
 				_ = m.persistence.ExpiryStore([]byte(k.(string)), e.persistedState())
-			} else {
 				m.expiryCount.Done()
 			}
 		}
